@@ -214,6 +214,25 @@ class HeloOnly(object):
         reply.message = '5.5.2 EHLO not spoken here'
 
 
+class Verdicts(object):
+    """edge validator of the duplicate-recipient cases: RCPT verdict by address (CUR['rv']: address -> code),
+    optionally the HELO fallback"""
+
+    def __init__(self, session):
+        pass
+
+    def handle_ehlo(self, reply, ehlo_as):
+        if CUR.get('helo'):
+            reply.code = '500'
+            reply.message = '5.5.2 EHLO not spoken here'
+
+    def handle_rcpt(self, reply, recipient, params):
+        v = CUR['rv'].get(recipient)
+        if v:
+            reply.code = v
+            reply.message = ('5.1.1 no such user <%s>' if v[0] == '5' else '4.2.0 try <%s> later') % recipient
+
+
 class Patch(object):
     def __init__(self, *triples):
         self.triples = triples
@@ -276,7 +295,7 @@ def split_replies(wire):
 def run_smtp_hop(case):
     """case: proto smtp|lmtp, exts [names], helo, reuse, size, msgs [dict(sender, rcpts, data, verdict)]"""
     CUR.clear()
-    CUR.update(exts=set(case['exts']), servers=[], data=[], edge_codes=[])
+    CUR.update(exts=set(case['exts']), servers=[], data=[], edge_codes=[], rv=dict(case.get('rv') or {}), helo=bool(case.get('helo')))
     lmtp = case['proto'] == 'lmtp'
     queue = RecQueue([m.get('verdict') for m in case['msgs']])
     out = dict(results=[], got=queue.got, hang=False)
@@ -284,7 +303,7 @@ def run_smtp_hop(case):
                (edge_smtp_mod, 'PtrLookup', FakePtr)):
         edge = SmtpEdge(None, queue, hostname='edge.example',
                         max_size=case.get('size') if 'SIZE' in case['exts'] else None,
-                        validator_class=HeloOnly if case.get('helo') else None,
+                        validator_class=(Verdicts if case.get('rv') else (HeloOnly if case.get('helo') else None)),
                         auth=('AUTH' in case['exts']), session_class=RecSession)
         socks = []
 
@@ -1328,6 +1347,137 @@ def probe_cases():
     return out
 
 
+# ---------------------------------------------------------------- duplicate recipients
+DUP_KEY = 'c06:recipient-result-from-another-recipients-reply'
+A, Bb, Cc, N1, N2, T1 = ('alice@example.com', 'bob@example.com', 'carol@example.com', 'nobody1@example.com',
+                         '"no body"@example.com', 'later@example.com')
+DUP_PATTERNS = [
+    # (recipients in order, {address: RCPT verdict of the edge})
+    ([A, A], {}),
+    ([A, Bb, A], {}),
+    ([A, A, N1], {N1: '550'}),
+    ([A, Bb, A, N1, Cc], {N1: '550'}),
+    ([N1, A, A], {N1: '550'}),
+    ([A, N1, A], {N1: '550'}),
+    ([N1, N1, A], {N1: '550'}),
+    ([A, N1, N1, Bb], {N1: '550'}),
+    ([A, T1, A, T1, Bb], {T1: '450'}),
+    ([A, N1, Bb, T1, A, Cc], {N1: '550', T1: '450'}),
+    ([Bb, A, N2, A, N1, Bb, Cc], {N1: '550', N2: '550'}),
+    ([N1, N1], {N1: '550'}),
+    ([N1, T1, N1], {N1: '550', T1: '450'}),
+    ([T1, T1, T1], {T1: '450'}),
+    ([A, Bb, Cc, N1], {N1: '550'}),           # no duplicate: control
+]
+
+
+def dup_cases(ctx):
+    """envelopes with repeated recipient addresses (adjacent, non-adjacent, before / after a rejected
+    recipient) x RCPT verdicts of the edge x {smtp, lmtp} x {PIPELINING on, off} x {EHLO, HELO} x
+    {fresh, reused connection}"""
+    rng = ctx.rng
+    cases = []
+    for proto in ('smtp', 'lmtp'):
+        for pipelining in (True, False):
+            exts = (['PIPELINING'] if pipelining else []) + ['8BITMIME', 'SMTPUTF8']
+            pats = list(DUP_PATTERNS)
+            for _ in range(6 if ctx.quick else 60):
+                pool = list(dict.fromkeys(gen_addr(rng, False) for _ in range(rng.choice([2, 3, 4]))))
+                rcpts = [rng.choice(pool) for _ in range(rng.choice([2, 3, 4, 5, 6]))]
+                rv = {a: v for a in pool for v in [rng.choice([None, None, '550', '450'])] if v}
+                pats.append((rcpts, rv))
+            for j, (rcpts, rv) in enumerate(pats):
+                helo = proto == 'smtp' and not pipelining and j % 5 == 4
+                reuse = j % 2 == 1
+                # second message on the same connection / a second connection: same pattern rotated
+                r2 = rcpts[1:] + rcpts[:1]
+                msgs = [dict(sender='s@example.com', rcpts=list(rcpts), data=SIMPLE_MSG % 0, verdict=None),
+                        dict(sender='', rcpts=r2, data=SIMPLE_MSG % 1, verdict=rng.choice([None, None, '451']))]
+                cases.append(dict(proto=proto, exts=exts, helo=helo, reuse=reuse, size=10 ** 7, rv=dict(rv), msgs=msgs))
+    return cases
+
+
+def judge_dups(ctx, case, out):
+    """(a) the queued envelope carries exactly the accepted occurrences, in order, duplicates kept;
+    (b) what the relay reports for an address is a reply the edge gave to that address (or, when all its
+    occurrences were accepted, the reply to the message) - never another address's reply"""
+    rv = case.get('rv') or {}
+    got = {}
+    for g in out['got']:
+        got.setdefault(g['id'], []).append(g)
+    lmtp = case['proto'] == 'lmtp'
+    pub = dict(kind='hop', transport='smtp', proto=case['proto'], exts=sorted(case['exts']), helo=bool(case.get('helo')),
+               reuse=bool(case.get('reuse')), rv=rv,
+               msgs=[dict(sender=m['sender'], rcpts=m['rcpts'], data=m['data'], verdict=m.get('verdict')) for m in case['msgs']])
+    for i, m in enumerate(case['msgs']):
+        if i >= len(out['results']):
+            _fail(ctx, 'c06:hop-hangs', dict(pub, index=i), 'no result for message %d' % i)
+            return
+        res = out['results'][i]
+        label = dict(pub, index=i)
+        if res == ('hang',):
+            _fail(ctx, 'c06:hop-hangs', label, 'attempt() did not return for message %d' % i)
+            return
+        rcpts = m['rcpts']
+        accepted = [r for r in rcpts if not rv.get(r)]
+        distinct = list(dict.fromkeys(rcpts))
+        msgcode = m.get('verdict') or '250'
+        # (a)
+        gl = got.get(i, [])
+        if accepted:
+            if len(gl) != 1:
+                _fail(ctx, 'c06:not-delivered' if not gl else 'c06:delivered-twice', label,
+                      'message %d reached the queue %d times; relay result %r' % (i, len(gl), res))
+            elif gl[0]['sender'] != m['sender'] or gl[0]['rcpts'] != accepted:
+                _fail(ctx, 'c06:duplicate-recipients-not-preserved', label,
+                      'edge accepted the occurrences %r (sender %r), its queue got %r (sender %r)' % (accepted, m['sender'], gl[0]['rcpts'], gl[0]['sender']))
+        elif gl:
+            _fail(ctx, 'c06:envelope-changed', label, 'every recipient was rejected, yet the queue got %r' % (gl,))
+        # (b)
+        if res[0] == 'err':
+            # one error for the whole message: legitimate only if it is the reply every address got
+            if accepted:
+                allowed = {msgcode} if msgcode[0] != '2' and not lmtp else set()
+            else:
+                allowed = set(rv[r] for r in rcpts)
+                if len(allowed) > 1:
+                    allowed = set()
+            if res[2] not in allowed or res[1] != ('perm' if res[2][0] == '5' else 'trans'):
+                _fail(ctx, DUP_KEY, label, 'message %d: edge replies per address %r, message reply %s; the relay reports %r for all of them'
+                      % (i, {r: rv.get(r) or 'accepted' for r in distinct}, msgcode if accepted else '(no DATA)', res))
+            continue
+        if res[0] != 'ok' or not isinstance(res[1], dict):
+            _fail(ctx, DUP_KEY, label, 'message %d: unexpected relay result %r' % (i, res))
+            continue
+        rep = res[1]
+        if list(rep.keys()) != distinct:
+            _fail(ctx, DUP_KEY, label, 'message %d: results for %r, recipients (first occurrences) %r' % (i, list(rep.keys()), distinct))
+            continue
+        for a in distinct:
+            want = ('E' + rv[a]) if rv.get(a) else (msgcode if msgcode[0] == '2' else 'E' + msgcode)
+            if rep[a] != want:
+                other = [b for b in distinct if b != a and rep[a] in ((('E' + rv[b]) if rv.get(b) else None), msgcode)]
+                _fail(ctx, DUP_KEY, label,
+                      'message %d, recipients %r: the edge answered %s to every occurrence of %r%s, the relay reports %r for it%s'
+                      % (i, rcpts, rv.get(a) or '250', a, '' if rv.get(a) else ' and %s to the message' % msgcode, rep[a],
+                         (' (the reply given to %r)' % other[0]) if other else ''))
+
+
+def run_dup_hops(ctx):
+    cases = dup_cases(ctx)
+    for case in cases:
+        out = run_smtp_hop(case)
+        ctx.count('hop-dup:%s:%s' % (case['proto'], 'pipelining' if 'PIPELINING' in case['exts'] and not case['helo'] else 'one-by-one'))
+        for m in case['msgs']:
+            ctx.evaluated(('hop-dup', case['proto'], tuple(case['exts']), case['helo'], case['reuse'], tuple(m['rcpts']),
+                           tuple(sorted(case['rv'].items())), m.get('verdict')), nontrivial=len(set(m['rcpts'])) < len(m['rcpts']))
+        judge_dups(ctx, case, out)
+        if not case['rv']:
+            model_hop_check(ctx, case, out)      # the model has no validator: only where nothing is rejected
+    ctx.count('hops-duplicate-recipients', len(cases))
+    ctx.sample(dict(kind='hop-dup', recipients=[A, Bb, A, N1, Cc], rcpt_verdicts={N1: '550'}))
+
+
 def run_hops(ctx):
     cases = probe_cases() + hop_cases(ctx)
     for case in cases:
@@ -1408,7 +1558,9 @@ def run(ctx):
         'line over {M,a,SP,TAB,<,CR} to the stated lengths; EHLO strings structured + every string over {A,a,1,-,SP,CR,LF,U+2028,=}; base64 '
         'random + every string over {A,Q,/,=,9,SP}; HTTP headers with several merge separators, malformed recipient headers, reply headers. '
         'hops: real relay client <-> real edge for every subset of {PIPELINING,8BITMIME,SMTPUTF8,SIZE,AUTH} x {EHLO,HELO} x {fresh,reused '
-        'connection} x {smtp,lmtp}, 2 messages each (1-5 recipients, C20/C05 bodies, queue verdicts 250/451/452/550), and HTTP hops. '
+        'connection} x {smtp,lmtp}, 2 messages each (1-5 recipients, C20/C05 bodies, queue verdicts 250/451/452/550), and HTTP hops; '
+        'duplicate-recipient hops: fixed + random recipient lists with repeated addresses (adjacent, non-adjacent, around rejected ones) x '
+        'per-address RCPT verdicts 250/550/450 of an edge validator x {smtp,lmtp} x {PIPELINING on,off}. '
         'non-trivial = quoted / non-ASCII / parametrised addresses, malformed lines containing separators, every hop message')
     ctx.extra['trusted_base'] = [
         'C06_hop is a composition: DATA framing (C05_roundtrip), envelope parse/flatten (C20_body_exact, hypothesis codec_ok about email), reply wire (C17) are imported theorems',
@@ -1423,6 +1575,7 @@ def run(ctx):
     stream_extensions(ctx, 300 if q else 4000, 4 if q else 5)
     stream_base64(ctx, 300 if q else 3000, 5 if q else 6)
     stream_http_codec(ctx, 150 if q else 2000)
+    run_dup_hops(ctx)
     run_hops(ctx)
     run_http_hops(ctx, 30 if q else 300)
     ctx.note('Client.mailfrom never adds the SMTPUTF8 / BODY=8BITMIME parameters (RFC 6531 3.4, RFC 6152); the library\'s own edge does not ask for them')
@@ -1454,8 +1607,10 @@ def replay(ctx, case):
                 print('model (D16 scanner):', dec_addr_res(ctx.model.call('c06_parse_mail_d16', rc[1])))
         return 0
     if kind == 'hop':
-        hop = dict(proto=c.get('proto'), exts=c.get('exts', []), helo=c.get('helo'), reuse=c.get('reuse'), size=10 ** 7, msgs=c['msgs'])
+        hop = dict(proto=c.get('proto'), exts=c.get('exts', []), helo=c.get('helo'), reuse=c.get('reuse'), size=10 ** 7, msgs=c['msgs'], rv=c.get('rv') or {})
         out = run_http_hop(hop) if c.get('transport') == 'http' else run_smtp_hop(hop)
+        if hop['rv']:
+            print('RCPT verdicts of the edge:', hop['rv'])
         for i, m in enumerate(hop['msgs']):
             print('sent     %d: sender=%r rcpts=%r verdict=%r' % (i, m['sender'], m['rcpts'], m.get('verdict')))
         for i, g in enumerate(out['got']):
